@@ -1,6 +1,7 @@
 """C05 — fees: minimum fee enforced; fee pool / tips / proposer reward accounted exactly."""
 from rules.engine import mir, q
 from rules.engine.mir import show
+from rules.engine.q import sig
 from rules.engine.sccp import Forcing
 
 EXPLANATION = (
@@ -22,6 +23,31 @@ def _find_base_fee(ctx, r, body):
     sites = q.calls_to(body, "Transaction::base_fee")
     r.anchor(sites, "call to Transaction::base_fee in create_next_state")
     return sites
+
+
+def _weigher_cap(prog, body, w):
+    """True if the weigher handed to base_fee returns min(weight(c), CAP) with CAP = u128::MAX / (tx.covenants.len() + 1) [or a smaller bound];
+    otherwise a description of what it returns"""
+    if w[0] != "closure":
+        return "weigher is %s" % sig(w)[:60]
+    cb = prog.body(w[1])
+    rets = q.ret_assignments(cb) if cb is not None else []
+    if len(rets) != 1 or not q.is_call(rets[0][2], "Ord::min"):
+        return "weigher returns %s" % [sig(x[2])[:80] for x in rets]
+    args = rets[0][2][2]
+    if not any(q.is_call(a, "covenant_weight_from_bytes") for a in args):
+        return "weigher returns %s" % sig(rets[0][2])[:100]
+    cap = [a for a in args if not q.is_call(a, "covenant_weight_from_bytes")][0]
+    caps = dict(w[2]) if len(w) > 2 else {}
+    caps.update({k.replace("_ref__", ""): v for k, v in list(caps.items())})
+    cap = q.subst_simplify(q.novers(cap), {}, caps)
+    nf = q.arith_nf(cap)
+    # MAX / (len(covenants) + 1)
+    if nf[0] == "bin" and nf[1] == "Div" and q.const_val(nf[2]) == (1 << 128) - 1:
+        d = nf[3]
+        if d[0] == "bin" and d[1] == "Add" and 1 in (q.const_val(d[2]), q.const_val(d[3])) and ".covenants" in sig(d) and "len(" in sig(d):
+            return True
+    return "cap is %s" % sig(cap)[:100]
 
 
 def r1_fee_gate(ctx):
@@ -59,6 +85,12 @@ def r1_fee_gate(ctx):
             r.undecided("base_fee/ballast", "ballast %s is not a constant" % show(args[2]), where)
         # weight closure
         w = args[3]
+        capped = _weigher_cap(prog, body, w)
+        # melstructs sums the per-covenant weights with plain `+` (Iterator::sum) while melvm saturates a covenant's weight at u128::MAX: the weights
+        # handed to base_fee must be capped so that their sum cannot wrap (a wrapped sum is a tiny fee for an enormous covenant; with overflow checks, a panic)
+        r.check(capped is True, "base_fee/weights-cannot-wrap", "each covenant weight is capped at u128::MAX / (number of covenants + 1): the sum inside base_fee cannot overflow",
+                "the covenant weights handed to Transaction::base_fee are not capped (%s): [a covenant of saturated weight 2^128−1, any other covenant] makes their sum overflow — "
+                "panic with overflow checks, a wrapped tiny minimum fee without" % (capped if capped is not True else ""), where)
         if w[0] == "fn":
             ok = w[1].endswith("covenant_weight_from_bytes")
             r.check(ok, "base_fee/weigher", "weigher is %s" % w[1], "weigher is %s, not covenant_weight_from_bytes" % w[1], where)
@@ -67,7 +99,10 @@ def r1_fee_gate(ctx):
             r.anchor(cb, "weigher closure body")
             ctx.analysed(cb)
             rets = q.ret_assignments(cb)
-            if len(rets) == 1 and q.is_call(rets[0][2], "covenant_weight_from_bytes") and rets[0][2][2][0][0] == "param":
+            core_ = rets[0][2] if len(rets) == 1 else None
+            if core_ is not None and q.is_call(core_, "Ord::min") and len(core_[2]) == 2:
+                core_ = [a for a in core_[2] if q.is_call(a, "covenant_weight_from_bytes")][0] if any(q.is_call(a, "covenant_weight_from_bytes") for a in core_[2]) else core_
+            if core_ is not None and q.is_call(core_, "covenant_weight_from_bytes") and core_[2][0][0] == "param":
                 r.ok("base_fee/weigher", "weigher closure returns %s" % show(rets[0][2]), where)
             elif rets and not any(q.has_unknown(x[2]) for x in rets):
                 r.violation("base_fee/weigher", "weigher closure returns %s, not covenant_weight_from_bytes(its argument)" %
